@@ -53,8 +53,17 @@ ERRORS = {
     "syntax-error-inside-an-included-file": ".include '{INC:lda (0x10}'",
     "syntax-error-inside-a-nested-include": ".include '{INC:.include \x27{INC2:) nop}\x27}'",
     "stray-closing-brace": "}\nnop",
+    # an undefined symbol whose only use is the definition of a name nobody reads, or an argument the macro body never uses
+    "undefined-symbol-in-an-unused-definition": "unused_name = missing_symbol",
+    "undefined-symbol-in-an-unused-definition-in-a-block": "{\nunused_name = missing_symbol + 1\n}",
+    "undefined-symbol-as-an-unused-macro-argument": ".macro ignores(a) {\nnop\n}\nignores(missing_symbol)",
+    "undefined-symbol-shadowing-definition": "twice_defined = 1\n{\ntwice_defined = missing_symbol\n}",
     "stray-closing-brace-after-block": "{\nnop\n}\n}\nnop",
 }
+
+
+# constructs cut off right before their closing token: injected as the LAST thing of the source, with nothing (not even a newline) after them
+TRUNCATED = ["load(1, 2", "lda [0x10", ".macro other", ".macro other(a", ".macro other(a)", "{{ name", "lda (0x10", "m(1,", "lda #", ".db 1,", ".if 1 {", ".for k := 0,", "x :=", "lda.w", ".scope s"]
 
 
 def materialise_includes(err, wd):
@@ -138,7 +147,10 @@ def run_entry(entry, src, workdir):
 def check(case):
     wd = tempfile.mkdtemp(prefix="vfC14")
     try:
-        src = VALID[case["valid"]] if case["error"] is None else inject(VALID[case["valid"]], materialise_includes(ERRORS[case["error"]], wd), case["pos"])
+        if case.get("truncated") is not None:
+            src = VALID[case["valid"]] + TRUNCATED[case["truncated"]]
+        else:
+            src = VALID[case["valid"]] if case["error"] is None else inject(VALID[case["valid"]], materialise_includes(ERRORS[case["error"]], wd), case["pos"])
         cwd = os.getcwd()
         os.chdir(wd)
         try:
@@ -170,6 +182,9 @@ def gen(tier, rng):
         yield {"valid": rng.randrange(len(VALID)), "error": err, "pos": rng.randrange(6), "entry": "cli"}
         if tier == "thorough":
             yield {"valid": rng.randrange(len(VALID)), "error": err, "pos": rng.randrange(6), "entry": "cli-sfc"}
+    for k, t in enumerate(TRUNCATED):
+        for e in (entries if tier == "thorough" else [entries[k % 3]]) + (["cli"] if tier == "thorough" or k % 4 == 0 else []):
+            yield {"valid": rng.randrange(len(VALID)), "error": "truncated:" + t, "truncated": k, "pos": 0, "entry": e}
 
 
 def run(tier, seed):
@@ -183,7 +198,7 @@ def run(tier, seed):
             kinds.add((c["error"], c["entry"]))
             failures.append({"ident": f"bounded/fault-injection/{c['entry']}", "script": "b_C14.py", "payload": c, "observed": f})
     return {"evaluations": len(cases), "distinct_nontrivial": len({str(c) for c in cases}),
-            "rule": "16 classes of definite error x statement positions x 4 entry points (CLI in a subprocess) on 4 valid base programs; "
+            "rule": "40 kinds of definite error (incl. undefined symbols nobody reads) x statement positions, 15 constructs cut off right before their closing token at the very end of the source, x 4 entry points (CLI in a subprocess) on 4 valid base programs; "
                     "plus the valid programs themselves (must succeed); distinct = distinct (program, error, position, entry point)",
             "samples": cases[:1] + cases[20:22], "failures": failures}
 
